@@ -227,19 +227,16 @@ def _skews(r, np, mode):
     return [r.choice([0, 1, 10, 100, 1000, 3000]) * r.randint(0, 3) for _ in range(np)]
 
 
-def fix_call_for_np(c, np):
-    """re-derive per-rank arrays after np shrank (used by shrink): keep the first np rows/cols"""
-    return c
-
-
 class C29(dst.Check):
     pid = 'C29'
     level = 'exploration'
-    rule = ('case = seeded plan (np 1-17, platform+rank mapping, selector + 1-3 algorithm overrides enumerated from '
-            '`smpimain --help-coll`, thresholds, 5-30 collective calls with per-rank arrival skews, counts in '
-            '{0,1,2,np-1,np,np+1,small,large}, int/double/derived types, 10 ops, in-place, non-blocking+deferred wait); '
-            'non-trivial = the run completed at least one call whose buffers were all compared; distinct = hash of '
-            '(selector assignment, np, shapes of the calls)')
+    rule = ('case = seeded plan: np 1-17, platform + rank mapping, ONE suspect = a (collective, algorithm) pair enumerated '
+            'from `smpimain --help-coll` of the running tree (or a whole selector for one collective, or a non-blocking / '
+            'single-implementation collective), 5-14 calls (quick; 5-30 thorough) of which about half use the suspect and the '
+            'others are blocking collectives under default algorithms (back-to-back interference), per-rank arrival skews, '
+            'counts in {0,1,2,np-1,np,np+1,small,large}, int/double/contiguous/vector types, 10 ops incl. a user op, '
+            'MPI_IN_PLACE, v-variants with gaps/zero blocks, non-blocking + deferred wait/test; non-trivial = at least one '
+            'call had every rank\'s buffers compared; distinct = hash of (suspect, selector assignment, np, call shapes)')
     assumptions = [
         'Input values are small integers (also in double buffers) so SUM/PROD/user-op results are exact in any '
         'association order; floating-point reassociation differences are therefore invisible by construction.',
@@ -253,6 +250,14 @@ class C29(dst.Check):
         'Receive buffers of non-root ranks (reduce, gather(v)) are valid canary buffers and must stay untouched; exscan '
         'rank 0 output and the tail of an in-place reduce_scatter input are not checked (left open by the standard).',
         'Only MPI_COMM_WORLD is used; predefined ops only on predefined types (derived types use the user op).',
+        'Send and receive datatypes of a call are identical: signature-compatible but different types (contiguous(3) sent, '
+        '3 ints received) break many exotic algorithms; observed, left out of the claim.',
+        'smpi/async-small-thresh stays 0: a non-zero value breaks point-to-point non-overtaking (small message matched '
+        'before an older large one of the same source/tag), which would be blamed on whatever collective runs (C28 matter).',
+        'A failure is blamed on the plan\'s single suspect even when it surfaces in a later context call (stray message); '
+        'known findings are keyed by (collective, algorithm, np class, count class[, in-place]).',
+        'MPI_Alltoallv(MPI_IN_PLACE) with a gapped datatype is only generated under the default algorithm (binding-level '
+        'defect, independent of the algorithm).',
     ]
     real_vs_stub = {'SMPI collectives, selectors, NBC, datatypes, ops': 'real', 'SimGrid kernel + network model': 'real',
                     'MPI application': 'real (generated plan interpreter sim/mpicoll.c)',
